@@ -3,7 +3,9 @@
 Spec: QueryRef.tla (reference semantics) walked by SearchCases.tla.  TLC enumerates a small scope
 exhaustively and samples a larger scope with -simulate; every case (corpus in arrival order, query,
 expected ids/total) is replayed into a real store: active fraction and sealed fraction, once with the
-AST handed to the real Searcher and once rendered to SeqQL and sent through GrpcV1.Search."""
+AST handed to the real Searcher and once rendered to SeqQL and sent through GrpcV1.Search.  Corpora of
+real size (posting lists spanning several LID / ID / token blocks) come from IndexLayout.tla's shape
+emission (C03's machinery) and are probed for search answers in every form of the fraction."""
 import os
 import vlib
 
@@ -35,6 +37,14 @@ def run(ctx):
             for i, ln in enumerate(fh):
                 if i % 997 == 0 and len(ctx.cov["samples"]) < 3:
                     ctx.cov["samples"].append(json.loads(ln))
+    # posting lists that span several 64 Ki LID blocks / 4096-ID blocks / 16 KiB token blocks: the shapes of
+    # IndexLayout.tla at the real constants (C03's machinery), search probes only
+    from checks import c03
+    sdrv = vlib.build_driver("shapes")
+    _, ssumm = c03.replay_shapes(ctx, sdrv, "IndexLayout_real_small.cfg" if quick else "IndexLayout_real.cfg", "search-big", only_search=True)
+    total["cases"] += ssumm["cases"]
+    total["evals"] += ssumm["evals"]
+    total["nontrivial"] += ssumm["nontrivial"]
     ctx.cov["traces_validated_against_impl"] = total["cases"]
     ctx.cov["evaluations"] = total["evals"]
     ctx.cov["distinct_nontrivial"] = total["nontrivial"]
@@ -42,6 +52,7 @@ def run(ctx):
     ctx.cov["exhaustive"] = True
     ctx.cov["rule"] = ("cases = states of SearchCases (exhaustive small scope: every corpus of <=2 docs over the X* universes x "
                        "every query of XQA u XQB; plus seeded -simulate over <=4 docs, AST depth <=2); each case is evaluated on an active "
-                       "and on a sealed fraction via AST and via SeqQL; non-trivial = expected total > 0")
+                       "and on a sealed fraction via AST and via SeqQL; non-trivial = expected total > 0; plus 16 (thorough 40) "
+                       "real-size shapes of IndexLayout.tla (posting lists over several LID/ID/token blocks) with 100-400 search probes each, asked of the active, sealed and reloaded fraction")
     ctx.assumptions += ["TLC evaluates QueryRef correctly", "documents carry the _all_ token as the proxy emits it",
                         "timestamps >= 1 (MID 0 makes DocProvider substitute wall clock)"]
